@@ -10,7 +10,8 @@ from __future__ import annotations
 from typing import Any
 
 from exabgp.bgp.message import Action
-from exabgp.bgp.message.update.attribute import AttributeCollection
+from exabgp.bgp.message.update.attribute import Attribute, AttributeCollection
+from exabgp.bgp.message.update.collection import validate_announce_nlri
 from exabgp.bgp.message.update.nlri import CIDR, INET, IPVPN, Label
 from exabgp.bgp.message.update.nlri.settings import INETSettings
 from exabgp.configuration.schema import Container, ActionTarget, ActionOperation
@@ -124,6 +125,13 @@ def route(tokeniser: Any) -> list[Route]:
     # Note: Validation (nexthop, labels, RD) happens at wire format generation time
     nlri = nlri_class.from_settings(settings)
     static_route = Route(nlri, attributes, nexthop=settings.nexthop)
+
+    # a route which cannot be announced (no next-hop) is refused where it is written: accepted, it
+    # would raise in every session which later tries to send it
+    if nlri_action == Action.ANNOUNCE and Attribute.CODE.INTERNAL_WITHDRAW not in attributes:
+        error = validate_announce_nlri(nlri, settings.nexthop)
+        if error:
+            raise ValueError(error)
 
     return list(ParseStatic.split(static_route))
 
